@@ -52,7 +52,7 @@ Ltac rew_pcs :=
       | closedLock _ => idtac | runningLock _ => idtac | w1 _ => idtac | w2 _ => idtac | run _ => idtac
       | close_res _ => idtac | fix5 _ => idtac | fix6 _ => idtac | fix12 _ => idtac
       | closed _ => idtac | closingCh _ => idtac | closedCh _ => idtac | ctx_done _ => idtac | early_cancel _ => idtac
-      | out_closed _ _ => idtac | sub_open _ _ => idtac | hstop _ _ => idtac | sub_closing _ _ => idtac
+      | out_closed _ _ => idtac | sub_open _ _ => idtac | hstop _ _ => idtac | sub_closing _ _ => idtac | dec_closing _ _ => idtac
       end;
       progress (rewrite H in * )
   end.
@@ -336,6 +336,26 @@ Proof.
   intros IC I H. invA_auto s IC I H.
 Qed.
 
+Lemma InvA_LPumpDropCtx s h s' : InvC s -> InvA' s -> step s (LPumpDropCtx h) = Some s' -> InvA' s'.
+Proof.
+  intros IC I H.
+  invA_auto s IC I H.
+  all: try match goal with
+    | Hp : pp ?s ?h = PSend ?m |- runningWg ?s = cnt _ (upd (mp ?s) ?m MDropped) _ =>
+        rewrite cnt_upd_same; [assumption | rewrite (Apump2 h m Hp); reflexivity]
+    end.
+Qed.
+
+Lemma InvA_LPumpDropClosing s h s' : InvC s -> InvA' s -> step s (LPumpDropClosing h) = Some s' -> InvA' s'.
+Proof.
+  intros IC I H.
+  invA_auto s IC I H.
+  all: try match goal with
+    | Hp : pp ?s ?h = PSend ?m |- runningWg ?s = cnt _ (upd (mp ?s) ?m MDropped) _ =>
+        rewrite cnt_upd_same; [assumption | rewrite (Apump2 h m Hp); reflexivity]
+    end.
+Qed.
+
 Lemma InvA'_init n hon f5 f6 f12 : InvA' (init n hon f5 f6 f12).
 Proof.
   constructor; [apply InvA_init|]. simpl. intros h m. destruct (Nat.ltb h n); discriminate.
@@ -358,6 +378,8 @@ Proof.
   - eapply InvA_LLoop; eassumption.
   - eapply InvA_LDeliver; eassumption.
   - eapply InvA_LPump; eassumption.
+  - eapply InvA_LPumpDropCtx; eassumption.
+  - eapply InvA_LPumpDropClosing; eassumption.
   - eapply InvA_LHcClosing; eassumption.
   - eapply InvA_LHcCtx; eassumption.
   - eapply InvA_LHc; eassumption.
